@@ -11,8 +11,12 @@ theorem wfn_nodeOfTensor (T : Tensor) : WFN (nodeOfTensor T) := by
   · simp [nodeOfTensor, nvirt, nparents, nchildren]
 
 /-- **`insert_identity(child, parent, new)` keeps the network well-formed** when `new` is unused. -/
-theorem insert_identity_wf_aux {t t' : TTN} {cid pid new : Id} (h : t.WF) (hnew : t.N new = none)
-    (hs : t.insertIdentity cid pid new = some t') : t'.WF := by
+theorem insert_identity_full {t t' : TTN} {cid pid new : Id} (h : t.WF) (hnew : t.N new = none)
+    (hs : t.insertIdentity cid pid new = some t') :
+    t'.WF ∧ ∃ C P, t.N cid = some C ∧ t.N pid = some P ∧ C.parent = some pid ∧
+      t'.S = subdivideS t.S cid pid new C.children P.parent P.children ∧ t'.root = t.root ∧
+      (∀ k, k ≠ new → dget t'.tensors k = dget t.tensors k) ∧
+      (∀ k n, k ≠ new → t.N k = some n → ∃ n', t'.N k = some n' ∧ n'.perm = n.perm ∧ n'.shp = n.shp) := by
   unfold TTN.insertIdentity at hs
   cases hC : dget t.nodes cid with
   | none => simp [hC, bind, Option.bind] at hs
@@ -85,22 +89,40 @@ theorem insert_identity_wf_aux {t t' : TTN} {cid pid new : Id} (h : t.WF) (hnew 
                             else if k = cid then some { C with parent := some new } else t.N k := by
                           intro k
                           simp only [TTN.N, dget_dset]
-                        refine ⟨?_, ?_, ?_⟩
-                        · have hS : TTN.S (⟨dset (dset (dset t.nodes cid { C with parent := some new }) pid P') new idNode2,
-                              dset t.tensors new [⟨bondAxis.lab, dim⟩, ⟨bondAxis.lab, dim⟩], t.root, t.nextLabel⟩ : TTN) =
-                              subdivideS t.S cid pid new C.children P.parent P.children := by
-                            funext k
-                            unfold subdivideS
-                            simp only [TTN.S, hN k]
-                            by_cases h1 : k = new
-                            · simp [h1, structOf, j1, i1, j2, i2, nodeOfTensor]
-                            · by_cases h2 : k = cid
-                              · have : ¬ cid = pid := fun e => hpc e.symm
-                                simp [h1, h2, hcn, this, structOf]
-                              · by_cases h3 : k = pid
-                                · simp [h1, h2, h3, hpn, hpc, structOf, r3, r4]
-                                · simp [h1, h2, h3]
-                          have hT : TTN.hasT (⟨dset (dset (dset t.nodes cid { C with parent := some new }) pid P') new idNode2,
+                        have hS : TTN.S (⟨dset (dset (dset t.nodes cid { C with parent := some new }) pid P') new idNode2,
+                            dset t.tensors new [⟨bondAxis.lab, dim⟩, ⟨bondAxis.lab, dim⟩], t.root, t.nextLabel⟩ : TTN) =
+                            subdivideS t.S cid pid new C.children P.parent P.children := by
+                          funext k
+                          unfold subdivideS
+                          simp only [TTN.S, hN k]
+                          by_cases h1 : k = new
+                          · simp [h1, structOf, j1, i1, j2, i2, nodeOfTensor]
+                          · by_cases h2 : k = cid
+                            · have : ¬ cid = pid := fun e => hpc e.symm
+                              simp [h1, h2, hcn, this, structOf]
+                            · by_cases h3 : k = pid
+                              · simp [h1, h2, h3, hpn, hpc, structOf, r3, r4]
+                              · simp [h1, h2, h3]
+                        refine ⟨⟨?_, ?_, ?_⟩, C, P, hCN, hPN, hcp, hS, rfl, ?_, ?_⟩
+                        rotate_left 3
+                        · intro k hk
+                          simp [dget_dset, hk]
+                        · intro k n hk hn
+                          rw [hN]
+                          by_cases h3 : k = pid
+                          · rw [h3, hPN] at hn
+                            have e : P = n := Option.some.inj hn
+                            rw [← e]
+                            exact ⟨P', by rw [h3]; simp [hpn], r1, r2⟩
+                          · by_cases h2 : k = cid
+                            · rw [h2, hCN] at hn
+                              have e : C = n := Option.some.inj hn
+                              rw [← e]
+                              exact ⟨{ C with parent := some new }, by
+                                have hcp' : ¬ cid = pid := fun e => hpc e.symm
+                                rw [h2]; simp [hcn, hcp'], rfl, rfl⟩
+                            · exact ⟨n, by simp [hk, h2, h3, hn], rfl, rfl⟩
+                        · have hT : TTN.hasT (⟨dset (dset (dset t.nodes cid { C with parent := some new }) pid P') new idNode2,
                               dset t.tensors new [⟨bondAxis.lab, dim⟩, ⟨bondAxis.lab, dim⟩], t.root, t.nextLabel⟩ : TTN) =
                               fun k => k == new || t.hasT k := by
                             funext k; simp [TTN.hasT, dhas_dset]
@@ -158,5 +180,9 @@ theorem insert_identity_wf_aux {t t' : TTN} {cid pid new : Id} (h : t.WF) (hnew 
                                 exact h.fit k n T' hk hT'
         · simp [hcp, hmem] at hs
       · simp [hcp] at hs
+
+theorem insert_identity_wf_aux {t t' : TTN} {cid pid new : Id} (h : t.WF) (hnew : t.N new = none)
+    (hs : t.insertIdentity cid pid new = some t') : t'.WF :=
+  (insert_identity_full h hnew hs).1
 
 end Ptn.C02
